@@ -4717,3 +4717,88 @@ mod tests {
 		assert_eq!(cltv, trampoline_cltv_expiry + first_hop_delta);
 	}
 }
+
+/// Thin public accessors over the crate-private failure-packet helpers, for out-of-tree
+/// verification harnesses. Adds no behaviour.
+#[cfg(feature = "_verif_hooks")]
+pub mod verif_hooks {
+	use super::*;
+
+	/// The sender-side reading of a failure packet, with plain public fields.
+	pub struct DecodedFailure {
+		/// The channel the failure is attributed to, if any.
+		pub short_channel_id: Option<u64>,
+		/// Whether the payment is to be considered permanently failed.
+		pub payment_failed_permanently: bool,
+		/// Whether the failure was attributed to a blinded tail.
+		pub failed_within_blinded_path: bool,
+		/// The hold times recovered from the attribution data, first hop first.
+		pub hold_times: Vec<u32>,
+		/// The failure code reported by the failing node, if the packet could be attributed.
+		pub failure_code: Option<u16>,
+		/// The data following the failure code.
+		pub failure_data: Option<Vec<u8>>,
+		/// Whether a network update was derived from the failure.
+		pub has_network_update: bool,
+	}
+
+	/// What the failing node does: builds and encrypts a failure packet under the shared secret
+	/// of the onion it received.
+	pub fn build_failure(
+		shared_secret: &[u8; 32], reason: LocalHTLCFailureReason, data: &[u8], hold_time: u32,
+	) -> OnionErrorPacket {
+		build_failure_packet(shared_secret, reason, data, hold_time)
+	}
+
+	/// What each hop before the failing node does with a packet received from downstream: adds
+	/// its attribution data and wraps the packet under its own shared secret.
+	pub fn wrap_failure(shared_secret: &[u8; 32], packet: &mut OnionErrorPacket, hold_time: u32) {
+		process_failure_packet(packet, shared_secret, hold_time);
+		crypt_failure_packet(shared_secret, packet);
+	}
+
+	/// What the sender does with the packet that reached it.
+	pub fn process_failure<T: secp256k1::Signing, L: Logger>(
+		secp_ctx: &Secp256k1<T>, logger: &L, path: &Path, session_priv: &SecretKey,
+		packet: OnionErrorPacket,
+	) -> DecodedFailure {
+		let d = process_onion_failure_inner(secp_ctx, logger, path, session_priv, None, packet);
+		DecodedFailure {
+			short_channel_id: d.short_channel_id,
+			payment_failed_permanently: d.payment_failed_permanently,
+			failed_within_blinded_path: d.failed_within_blinded_path,
+			hold_times: d.hold_times,
+			#[cfg(any(test, feature = "_test_utils"))]
+			failure_code: d.onion_error_code.map(|c| c.failure_code()),
+			#[cfg(not(any(test, feature = "_test_utils")))]
+			failure_code: None,
+			#[cfg(any(test, feature = "_test_utils"))]
+			failure_data: d.onion_error_data,
+			#[cfg(not(any(test, feature = "_test_utils")))]
+			failure_data: None,
+			has_network_update: d.network_update.is_some(),
+		}
+	}
+
+	/// What a hop does with the attribution data of a fulfil travelling back to the sender
+	/// (`None` at the final hop).
+	pub fn wrap_fulfill_attribution(
+		downstream: Option<AttributionData>, shared_secret: &[u8; 32], hold_time: u32,
+	) -> AttributionData {
+		process_fulfill_attribution_data(downstream, shared_secret, hold_time)
+	}
+
+	/// The shared secrets the sender derives for the unblinded hops of `path`, first hop first.
+	pub fn hop_shared_secrets<T: secp256k1::Signing>(
+		secp_ctx: &Secp256k1<T>, path: &Path, session_priv: &SecretKey,
+	) -> Vec<[u8; 32]> {
+		construct_onion_keys_generic(secp_ctx, &path.hops, None, session_priv)
+			.map(|(shared_secret, _, _, _, _)| shared_secret.secret_bytes())
+			.collect()
+	}
+
+	/// The failure code a reason maps to on the wire.
+	pub fn failure_code(reason: LocalHTLCFailureReason) -> u16 {
+		reason.failure_code()
+	}
+}
